@@ -65,6 +65,11 @@ class Sym:
     def const(x):
         if isinstance(x, Sym):
             return x
+        if getattr(x, 'ndim', None) == 0 and getattr(x, 'dtype', None) == object:
+            # 0-d object array (np.squeeze of a traced array): unwrap instead of float()-ing the Sym away
+            x = x.item()
+            if isinstance(x, Sym):
+                return x
         if isinstance(x, bool):
             x = int(x)
         if isinstance(x, int):
@@ -83,6 +88,14 @@ class Sym:
         return Sym(Node('atom', (name,)), val)
 
     def _bin(self, o, op, f, swap=False):
+        if getattr(o, 'ndim', 0) and hasattr(o, 'flat'):
+            # ndarray operand (`float_array / Sym`: NumPy defers to us because of __array_priority__):
+            # broadcast element-wise into an object array
+            import numpy as np
+            out = np.empty(o.shape, dtype=object)
+            for i, v in enumerate(o.flat):
+                out.flat[i] = self._bin(v, op, f, swap)
+            return out
         try:
             o = Sym.const(o)
         except (TypeError, ValueError):
